@@ -119,6 +119,28 @@ func register(s registrar, rec func(string)) {
 			s.OnEvent(name, func(n int, tail string) { rec(fmt.Sprintf("s6(%d,%s)", n, tail)) })
 		}
 	}
+	// a second handler on each event that carries attachments: every handler of an event decodes the packet
+	// for itself and must see the same, intact arguments
+	for _, shape := range []int{3, 4, 5} {
+		name := fmt.Sprintf("%s%d", evName(shape), shape)
+		switch shape {
+		case 3:
+			s.OnEvent(name, func(w withBin) { rec(fmt.Sprintf("2nd:s3(%d,%x)", w.N, []byte(w.B))) })
+		case 4:
+			s.OnEvent(name, func(m map[string]any, n int) {
+				switch x := m["bin"].(type) {
+				case sio.Binary:
+					rec(fmt.Sprintf("2nd:s4(k=%v,bin=%x,%d)", m["k"], []byte(x), n))
+				case []byte:
+					rec(fmt.Sprintf("2nd:s4(k=%v,bin=%x,%d)", m["k"], x, n))
+				default:
+					rec(fmt.Sprintf("2nd:s4(k=%v,bin=<%T %v>,%d)", m["k"], m["bin"], m["bin"], n))
+				}
+			})
+		case 5:
+			s.OnEvent(name, func(a, b sio.Binary, n int) { rec(fmt.Sprintf("2nd:s5(%x,%x,%d)", []byte(a), []byte(b), n)) })
+		}
+	}
 	// look-alike names must never receive anything
 	s.OnEvent("ev", func() { rec("WRONG-HANDLER(ev)") })
 	s.OnEvent("evx", func() { rec("WRONG-HANDLER(evx)") })
@@ -215,7 +237,28 @@ func scenario(p plan, bound int) *vx.Scenario {
 		}
 		return func() vx.Result {
 			var r vx.Result
-			cmp := func(side string, got, want []string) {
+			var cmp func(side string, got, want []string)
+			cmp = func(side string, got, want []string) {
+				// the second handlers of the events with attachments: judged like a second receiver
+				var first, second, want2 []string
+				for _, x := range got {
+					if strings.HasPrefix(x, "2nd:") {
+						second = append(second, strings.TrimPrefix(x, "2nd:"))
+					} else {
+						first = append(first, x)
+					}
+				}
+				for _, x := range want {
+					if strings.HasPrefix(x, "s3(") || strings.HasPrefix(x, "s4(") || strings.HasPrefix(x, "s5(") {
+						want2 = append(want2, x)
+					}
+				}
+				if !strings.HasSuffix(side, "second handler of the event") {
+					if len(second) > 0 || len(want2) > 0 {
+						cmp(side+", second handler of the event", second, want2)
+					}
+					got = first
+				}
 				g := append([]string{}, got...)
 				w := append([]string{}, want...)
 				sort.Strings(g)
